@@ -652,6 +652,7 @@ template <class G, class L> struct Monitor {
         if (!T.e.empty()) feasible.push_back(1);                                                                     // remove an edge
         if (!T.e.empty() && LT<L>::labelled) feasible.push_back(2);                                                  // change one label
         feasible.push_back(3);                                                                                       // one more vertex
+        if (feasible.size() >= 3 && feasible[0] == 0 && feasible[1] == 1) { feasible.push_back(4); feasible.push_back(4); } // move one edge (same count)
         int pk = feasible[r.u((unsigned)feasible.size())];
         std::string pdesc;
         if (pk == 0) {
@@ -672,6 +673,15 @@ template <class G, class L> struct Monitor {
             if (nl == labelOf<L>(it->second.stamp)) nl = LT<L>::make(it->second.stamp + 2);
             D.setEdgeLabel(it->first.first, it->first.second, nl);
             pdesc = "one-label-differs";
+        } else if (pk == 4) {
+            // same number of edges, one of them elsewhere (self-loops included on both sides)
+            auto it = T.e.begin();
+            std::advance(it, r.u((unsigned)T.e.size()));
+            VertexIndex i, j;
+            do { i = r.u(n); j = r.chance(1, 3) ? i : r.u(n); } while (T.has(i, j));
+            D.removeEdge(it->first.first, it->first.second);
+            D.addEdge(i, j, labelOf<L>(it->second.stamp));
+            pdesc = "one-edge-moved";
         } else {
             D.resize(n + 1);
             pdesc = "one-extra-vertex";
